@@ -25,6 +25,7 @@ CONSTANTS
   PAlphabet, PMaxLen,               \* "par": every token string over PAlphabet up to PMaxLen
   PMaxPairs,                        \* "par": k=v&k=v... from the catalogues PKeys, PVals
   ResRT, ResRoles, ResQRT, ResQRoles, ResEntries,     \* "res": backend universe and queries
+  ResBackends,                      \* "res": on which backing stores ("file", "consul"); the answers do not depend on it
   RndMaxParts                       \* "rnd": length of the entry content in parts
 
 VARIABLE case
@@ -74,8 +75,10 @@ ParCatalogue == { pre \o JoinPairs(ps) \o post : pre \in Pads, post \in Pads, ps
 ParCases == {[k |-> "par", s |-> s] : s \in Seqs(PAlphabet, 0, PMaxLen) \cup ParCatalogue}
 
 (* --- "res" --- *)
-ResCases == {[k |-> "res", q |-> [comp |-> "c", rt |-> rt, role |-> ro, entry |-> e], B |-> B] :
-               rt \in ResQRT, ro \in ResQRoles, e \in ResEntries, B \in SUBSET (ResRT \X ResRoles)}
+\* Wherever the queried entry is ABSENT the driver stores longer-named neighbours (<entry>-full; on Consul also the key
+\* <entry>/sub): keys that merely start with the entry's name are not the entry.
+ResCases == {[k |-> "res", q |-> [comp |-> "c", rt |-> rt, role |-> ro, entry |-> e], B |-> B, be |-> b] :
+               rt \in ResQRT, ro \in ResQRoles, e \in ResEntries, B \in SUBSET (ResRT \X ResRoles), b \in ResBackends}
 
 (* --- "rnd" --- *)
 Lit(x) == [k |-> "lit", x |-> x]
